@@ -99,6 +99,20 @@ SITES = {
                      '/s4': {'links': []}, '/s5': {'links': ['/m']}, '/m': {'links': []}}),
                   ['http://a.test/s1', 'http://a.test/s2', 'http://a.test/s3',
                    'http://a.test/s4', 'http://a.test/s5']),
+    # <base href>: holds for the links of the page that declares it and for no other page
+    # (first a page with a base in another directory, then pages without one and a page with
+    # a different one, all using document-relative links)
+    # (wpull also queues the base URL itself, like every href attribute; whether that is a
+    # "link" is left open here: both base URLs are pages that '/' links to anyway)
+    'base': (S({'/': {'links': ['/lib/', '/docs/index.html', '/blog/index.html', '/w2/x',
+                                '/wiki/i.html']},
+                '/lib/': {'links': []}, '/w2/x': {'links': []},
+                '/docs/index.html': {'base': '/lib/', 'links': ['d1.html']},
+                '/blog/index.html': {'links': ['post1.html', '../top.html']},
+                '/wiki/i.html': {'base': 'http://a.test/w2/x', 'links': ['w.html']},
+                '/lib/d1.html': {'links': ['more.html']}, '/lib/more.html': {'links': []},
+                '/blog/post1.html': {'links': []}, '/top.html': {'links': []},
+                '/w2/w.html': {'links': []}}), ['http://a.test/']),
     'twostart': (S({'/': {'links': ['/m']}, '/z': {'links': ['/m', '/']},
                     '/m': {'links': ['/z']}}),
                  ['http://a.test/', 'http://A.TEST:80/z', 'http://a.test/']),
@@ -317,7 +331,7 @@ def judge(site, starts, ro, conc, out, strict_once=False):
             chain, page, final = crawlref.fetch_chain(
                 site, u, hop_ok=lambda t: scope.in_scope(t, rr, o2))
             for link, inline in crawlref.links_of(page):
-                c = crawlref.canon(final, link)
+                c = crawlref.canon(crawlref.doc_base(final, page), link)
                 child = dict(level=r['level'] + 1,
                              inline_level=((r.get('inline_level') or 0) + 1) if inline else None,
                              parent=u, root=r['root'], try_count=0)
@@ -354,6 +368,7 @@ def jobs(tier, seed):
         'frameout': ['r-p-np', 'r-p'],
         'depth': ['r', 'r-l1', 'r-l2', 'r-rej', 'r-acc'],
         'twostart': ['r', 'none'],
+        'base': ['r'],
     }
     for s, os_ in site_opts.items():
         for o in os_:
@@ -364,6 +379,11 @@ def jobs(tier, seed):
             budget = 0 if c == 1 else (1 if tier == 'quick' else 2)
             if tier != 'quick' and c == 3:
                 budget = 1
+            if s == 'base':
+                # eleven pages: the answer orders at budget 1 run into the thousands
+                # (measured: > 500 executions in 90 s on one core); the property of this
+                # site - a <base> holds for its own page only - does not depend on them
+                budget = 0 if tier == 'quick' or c != 2 else 1
             js.append(dict(params=dict(site=s, opts=o, conc=c), budget=budget, prefix=[]))
     if tier != 'quick':
         for mask in range(512):
